@@ -35,7 +35,9 @@ def run_graph(graph, roots, skip, workdir):
     case = {'graph': graph, 'roots': roots, 'skip': skip}
     for i, f in enumerate(FILES):
         macs = ['\\input{%s}' % t if (i + k) % 2 == 0 else '\\include{%s}' % t for k, t in enumerate(graph.get(f, []))]
-        txt = 'Text of file %s.\n%% \\input{ab.x}\n' % f + ' and '.join(macs) + '\nEnd of %s \\verb|\\input{b.x}|.\n' % f
+        txt = 'Text of file %s.\n%% \\input{ab.x}\n' % f + ' and '.join(macs) + '\nEnd of %s \\verb|\\input{b.x}|.\n' % f \
+            + ('\\begin{lstlisting}\n\\input{ghostl}\n\\end{lstlisting}\n%%% LT-SKIP-BEGIN\n\\include{ghosts}\n%%% LT-SKIP-END\n'
+               '\\begin{tikzpicture}\\input{ghostt}\\end{tikzpicture}\n' if i % 2 == 0 else '')     # shown, not executed (seeded change C18-H)
         with open(os.path.join(workdir, f + '.tex'), 'w') as fh:
             fh.write(txt)
     args = ['--include'] + (['--skip', skip] if skip else []) + roots
